@@ -205,6 +205,12 @@ func (g *UndirectedMatrix) setWeightedEdge(e graph.Edge, weight float64) {
 	if int64(int(tid)) != tid {
 		panic("simple: unavailable to node ID for dense graph")
 	}
+	if !g.has(fid) {
+		panic("simple: from node not in dense graph")
+	}
+	if !g.has(tid) {
+		panic("simple: to node not in dense graph")
+	}
 	if g.nodes != nil {
 		g.nodes[fid] = from
 		g.nodes[tid] = to
